@@ -57,6 +57,17 @@ CHECKS['C08'] = dict(check='c08', engine='E3-history-vs-model', category='explor
                      note='trusted base: FlowIRConcrete(raw()) as the meaning of "from scratch"; sequences only (no concurrent callers, '
                           'which the property does not quantify over); sampled histories of up to 40 operations')
 
+CHECKS['C14'] = dict(check='c14', engine='E4-simfs-fault-enumeration', category='fault_enumeration', design='§3 C14',
+                     technique='deterministic simulation with fault injection on a simulated file layer: every write boundary of an update x {crash before/after, torn flush, EIO, ENOSPC, rename failure}, old-or-new oracle + read-back fidelity',
+                     text='for each of the five state-file writers a generated history of updates is run fault-free (read-back equals '
+                          'the values last written after every update), then every write boundary of the last update is hit with every '
+                          'fault kind; afterwards each state file must be byte-identical to the complete previous or complete new '
+                          'version and must load, and after a handled I/O error the next update must succeed. Enumeration of the fault '
+                          'space of one history is the right level: the property quantifies over crash points.',
+                     note='trusted base: sim/simfs.py models process death and I/O errors (not power loss: fsync ordering is outside C14); '
+                          'un-flushed data is lost at a crash, a torn flush leaves a seeded prefix; histories are sampled, boundaries of '
+                          'long YAML dumps are sampled down to max_boundaries in the quick tier')
+
 NOT_APPLICABLE = {
     'C03': 'pure rewrite of a component list (FlowIR.apply_replicate): no schedule, clock, fault or history to simulate',
     'C04': 'pure fold of configuration layers plus substitution; no state between calls (state across calls is C08)',
@@ -70,7 +81,7 @@ NOT_APPLICABLE = {
     'C19': 'dump/load round trip on documents; pure',
     'C20': 'arithmetic on a list of stage weights at load time',
 }
-PENDING = {k: 'claimed in DESIGN.md; its check is still under construction in this round' for k in ('C05', 'C07', 'C14')}
+PENDING = {k: 'claimed in DESIGN.md; its check is still under construction in this round' for k in ('C05', 'C07')}
 
 
 def main():
